@@ -460,20 +460,6 @@ func (f *Frame) appendModel(instr ssa.Instruction, c *ssa.CallCommon, args []Val
 		e.assume(implies(f.guard, sle(newLen, i64(1<<48))))
 		return e.define(name, mkSlice(sReg(s), sOff(s), newLen, sCap(s)))
 	}
-	// the same for an appended part of symbolic length: one bulk update of the row, no case split on the region
-	// (builders of the form `out := make([]byte, 0, total); out = append(out, a...); out = append(out, b...)`)
-	if !inPlace.isC && !(addLen.isC && addLen.c <= smallN) && e.provedNow(f.guard, inPlace) {
-		row := e.define(name+"_old", sel(h, sReg(s)))
-		start := e.define(name+"_st", bvAdd(sOff(s), sLen(s)))
-		nr := e.havoc(name+"_row", arraySort(SBV64, el))
-		q := e.qvar()
-		qi := sym(q, SBV64)
-		body := eq(sel(nr, qi), ite(ult(bvSub(qi, start), addLen), addAt(bvSub(qi, start)), sel(row, qi)))
-		e.assume(Term{S: fmt.Sprintf("(forall ((%s (_ BitVec 64))) (! %s :pattern ((select %s %s))))", q, body.S, nr.S, q), Sort: SBool})
-		e.setHeap(f.st, hn, store(h, sReg(s), nr))
-		e.assume(implies(f.guard, sle(newLen, i64(1<<48))))
-		return e.define(name, mkSlice(sReg(s), sOff(s), newLen, sCap(s)))
-	}
 	freshReg := e.alloc(f.st, name+"_reg")
 	freshCap := e.havoc(name+"_cap", SBV64)
 	e.assume(and(sle(newLen, freshCap), sle(freshCap, i64(1<<48))))
@@ -490,8 +476,8 @@ func (f *Frame) appendModel(instr ssa.Instruction, c *ssa.CallCommon, args []Val
 	nr := e.havoc(name+"_row", arraySort(SBV64, el))
 	q := e.qvar()
 	qi := sym(q, SBV64)
-	freshVal := ite(ult(qi, sLen(s)), sel(oldRow, bvAdd(sOff(s), qi)), zero)
-	body := eq(sel(nr, qi), ite(ult(bvSub(qi, start), addLen), addAt(bvSub(qi, start)), ite(inPlace, sel(oldRow, qi), freshVal)))
+	freshVal := ite(and(sle(i64(0), qi), slt(qi, sLen(s))), sel(oldRow, bvAdd(sOff(s), qi)), zero)
+	body := eq(sel(nr, qi), ite(and(sle(start, qi), slt(qi, bvAdd(start, addLen))), addAt(bvSub(qi, start)), ite(inPlace, sel(oldRow, qi), freshVal)))
 	e.assume(Term{S: fmt.Sprintf("(forall ((%s (_ BitVec 64))) (! %s :pattern ((select %s %s))))", q, body.S, nr.S, q), Sort: SBool})
 	if addLen.isC && addLen.c <= smallN {
 		// explicit facts for the appended elements (useful to the quantifier-free slice)
@@ -530,7 +516,7 @@ func (f *Frame) bufAppend(b Term, n Term, at func(i Term) Term) {
 		nr = e.havoc(f.name("brow"), arraySort(SBV64, SBV8))
 		q := e.qvar()
 		qi := sym(q, SBV64)
-		body := eq(sel(nr, qi), ite(ult(bvSub(qi, old), n), at(bvSub(qi, old)), sel(row, qi)))
+		body := eq(sel(nr, qi), ite(and(sle(old, qi), slt(qi, bvAdd(old, n))), at(bvSub(qi, old)), sel(row, qi)))
 		e.assume(Term{S: fmt.Sprintf("(forall ((%s (_ BitVec 64))) (! %s :pattern ((select %s %s))))", q, body.S, nr.S, q), Sort: SBool})
 	}
 	e.setHeap(f.st, "HB_data", store(data, b, nr))
